@@ -711,7 +711,7 @@ func (m *Model) evalPlugin(s *Step) {
 		}
 	}
 	db := m.Script.Deploys[srcOf(s)]
-	if db.FailRun {
+	if db.FailRun || m.Observed["deploy-fail:"+srcOf(s)] != "" {
 		m.set(id, "deploy", Produced)
 		m.produce(id, "deploy_failed", "error", map[string]any{"error": AnyStr{}})
 		done(Dead)
